@@ -88,3 +88,17 @@ Proof.
   apply (r_step 0 s5 s6 R5).
   exact (SDrop s5 0 (Nat.lt_0_succ 0) (or_introl (conj eq_refl (le_n 1))) eq_refl).
 Qed.
+
+(* non-vacuity of the downcast steps: a look starts, takes the lock, ends; a call then runs *)
+Definition l1 : st := mkSt' 1 None false 0 0 0 [mkT 1 WaitLook].
+Definition l2 : st := mkSt' 1 (Some 0) false 0 0 0 [mkT 1 (InLook 0)].
+Definition l3 : st := mkSt' 1 None false 0 0 0 [mkT 1 Idle].
+Example C20_look_nonvacuous : reachable 0 l2 /\ reachable 0 l3 /\ holds (at_ (get (ths l2) 0)) = true /\ lock l2 = Some 0.
+Proof.
+  assert (R1 : reachable 0 l1).
+  { apply (r_step 0 (init 0) l1); [apply r_init|]. exact (SLook (init 0) 0 (Nat.lt_0_succ 0) eq_refl (le_n 1)). }
+  assert (R2 : reachable 0 l2).
+  { apply (r_step 0 l1 l2 R1). exact (SLookAcq l1 0 (Nat.lt_0_succ 0) eq_refl eq_refl). }
+  split; [exact R2|]. split; [|split; reflexivity].
+  apply (r_step 0 l2 l3 R2). exact (SLookEnd l2 0 0 (Nat.lt_0_succ 0) eq_refl).
+Qed.
